@@ -737,6 +737,13 @@ class PyInterp:
             else:
                 self.block(st.orelse, env)
             self.block(st.finalbody, env)
+        elif isinstance(st, ast.With):
+            # context managers are modelled values (answered by the leaf): entering binds the value itself, leaving does nothing
+            for item in st.items:
+                v = self.eval(item.context_expr, env)
+                if item.optional_vars is not None:
+                    self._store(item.optional_vars, v, env)
+            self.block(st.body, env)
         elif isinstance(st, (ast.Pass, ast.Import, ast.ImportFrom, ast.Global, ast.Nonlocal)):
             return
         elif isinstance(st, (ast.FunctionDef,)):
